@@ -351,6 +351,7 @@ func (c *Ctx) appendCall(x *ast.CallExpr, st *State) Val {
 			break
 		}
 		el := b.Elems
+		c.listAppends = append(c.listAppends, listAppend{Target: types.ExprString(x.Args[0]), Guard: st.guard, Pos: x.Pos()})
 		for i, a := range x.Args[1:] {
 			v := c.eval(a, st)
 			c.noteElemStore(st, types.ExprString(x.Args[0]), v, c.pos(x.Pos()), "list element")
